@@ -10,7 +10,7 @@ def run(r):
         "primitives are abstract in the theorems (any psem, any failure point); the error value is an opaque constant",
     ]
     r.assumptions += ["the try node satisfies tree_okb (stored operand signatures fit the checker's, no under-signature on the operands)",
-                      "one handler (⍣F G); chained handlers, pattern (⍣ with ⍩ case) and unmodelled scoped state (recur, memo, thread channels) are search only",
+                      "C11_try_rollback/C11_try_success are stated for one handler (⍣F G); chains of handlers are covered by C11_try_every_handler_sees_original (the loop of algorithm::try_ at any position, any number of handlers) and by the tie (3-branch tries are generated and run by the model); pattern (⍣ with ⍩ case) and unmodelled scoped state (recur, memo, thread channels) are search only",
                       "errors raised through `case` pass through a plain try by design and are excluded from 'behaves like G alone'"]
     if not r.harness(["c11"]):
         return
@@ -37,5 +37,5 @@ def run(r):
     r.coverage["distinct_nontrivial"] = b[1] + (summ[0]["handler_ran"] if summ else 0)
     r.coverage["rule"] = ("tie: generated ⍣(F_j)(G) programs (a failing assertion injected after step j of F; also nested, under dip, chained) run on the "
                           "implementation and on the interpreter model; search: for each F (k steps) and each j<=k, ⍣(F_j) G vs G alone with the same "
-                          "signature, in 4 contexts (plain, inside a fill, behind dip, nested try), sentinels beneath and hidden-stack depths compared; "
+                          "signature, in 8 contexts (plain, inside a fill with the handler judged in the same fill, behind dip, nested try, a failure escaping from inside a fill / a nested fill, two handlers where the middle one takes the error as an argument and fails, two handlers where the middle one is GIVEN the error beneath the arguments - no outputs - and fails while the last has the try's outputs), sentinels beneath and hidden-stack depths compared, the frame hook on; "
                           "non-trivial = the handler actually ran")
